@@ -387,6 +387,8 @@ class Check:
             s = traces[min(len(traces) - 1, self.seed % len(traces))]
             self.cov["samples"].append({"kind": "recorded trace validated by %s" % module, "events": s[:40]})
         log("[%s] trace validation %s: %d events, %d traces, %d accepted, %d rejected" % (self.prop, module, len(events), len(traces), accepted, len(found)))
+        if not found:
+            selftest(self, module, cfg, trace_path)
         return found
 
     # ---- verdicts
@@ -444,3 +446,90 @@ def main(fn):
         print("MACHINERY-ERROR: timeout %s" % ex)
         sys.exit(2)
     sys.exit(rc)
+
+
+# ----------------------------------------------------------------------------- binding self-test
+# "A spec nothing binds to the code": corrupt one recorded field (or drop one event) of a trace the spec accepted and
+# require TLC to reject it. Run in the thorough tier (and with VERIF_SELFTEST=1). A corrupted trace that is still accepted
+# is a machinery error (exit 2), never a verdict.
+
+def _first(events, pred):
+    for i, e in enumerate(events):
+        if pred(e):
+            return i
+    return None
+
+
+def _mut_TraceServer(ev):
+    out = []
+    # (1) swap the ids of two responses of the same trace
+    resp = [i for i, e in enumerate(ev) if e.get("ev") == "Resp"]
+    for a in range(len(resp) - 1):
+        i, j = resp[a], resp[a + 1]
+        if ev[i].get("t") == ev[j].get("t") and ev[i].get("id") != ev[j].get("id"):
+            m = [dict(x) for x in ev]
+            m[i]["id"], m[j]["id"] = ev[j]["id"], ev[i]["id"]
+            out.append(("C02", "swap two response ids", m))
+            break
+    # (2) drop a PmSend event that is followed by a page release of the same order
+    i = _first(ev, lambda e: e.get("ev") == "PmSend" and any(x.get("ev") == "AllocRel" and x.get("o") == e.get("o") and x.get("t") == e.get("t") and x.get("n", 0) > 0 for x in ev))
+    if i is not None:
+        out.append(("C18", "drop a pm.send event", ev[:i] + ev[i + 1:]))
+    # (3) drop the OpEnd of a read/write that precedes an object close
+    i = _first(ev, lambda e: e.get("ev") == "OpEnd" and e.get("rw") in ("R", "W") and e.get("obj") in (1, 2))
+    if i is not None and any(x.get("ev") == "ObjClose" and x.get("obj") == ev[i].get("obj") and x.get("t") == ev[i].get("t") for x in ev[i:]):
+        out.append(("C14", "drop a handler return event", ev[:i] + ev[i + 1:]))
+    return out
+
+
+def _flip(ev, name, field, newval, desc, tag="*"):
+    i = _first(ev, lambda e: e.get("ev") == name and field in e and (e[field] != newval(e) if callable(newval) else e[field] != newval))
+    if i is None:
+        return []
+    m = [dict(x) for x in ev]
+    m[i][field] = newval(m[i]) if callable(newval) else newval
+    return [(tag, desc, m)]
+
+
+MUTATORS = {
+    "TraceServer": _mut_TraceServer,
+    "TraceSession": lambda ev: _flip(ev, "ObjFinal", "nclose", lambda e: e["nclose"] + 1, "one more Close on an object"),
+    "TraceStream": lambda ev: _flip(ev, "Compare", "stateEqual", False, "state differs from the reference run") + _flip(ev, "RunEnd", "goroutines", 1, "a goroutine left behind"),
+    "TraceClient": lambda ev: _flip(ev, "Ret", "got", lambda e: e["got"] + "x", "a call got another value", "C03") + _flip(ev, "End", "goroutines", 1, "a goroutine left behind", "C04"),
+    "TraceFile": lambda ev: _flip(ev, "FRet", "n", lambda e: e["n"] + 1, "count off by one", "C01,C13") + _flip(ev, "FRet", "pos", lambda e: e["pos"] + 1 if e["pos"] >= 0 else 5, "offset off by one", "C12"),
+    "TraceRO": lambda ev: _flip(ev, "ROCase", "same", False, "tree changed"),
+    "TraceHS": lambda ev: _flip(ev, "HSReply", "established", lambda e: not e["established"], "handshake outcome inverted"),
+    "TraceLs": lambda ev: _flip(ev, "LsResult", "got", lambda e: e["got"][1:] if e["got"] else ["00"], "one entry lost"),
+    "TraceAdapter": lambda ev: _flip(ev, "AdPath", "got", lambda e: e["got"] + "/..", "path not clean"),
+    "TraceModes": lambda ev: _flip(ev, "W", "perm", lambda e: (e["perm"] + 1) % 512, "permission bit changed"),
+    "TraceWire": lambda ev: _flip(ev, "WireEnc", "b1", lambda e: e["b1"][:-1], "one byte missing in an encoding"),
+    "TraceDecode": lambda ev: _flip(ev, "Dec", "class", "panic", "a decoder panicked"),
+    "TraceReply": lambda ev: _flip(ev, "ReplyCase", "returned", False, "a call did not return"),
+    "TraceFs": lambda ev: _flip(ev, "FsStep", "treeeq", False, "trees differ"),
+}
+
+
+def selftest(check, module, cfg, trace_path):
+    if check.tier != "thorough" and not os.environ.get("VERIF_SELFTEST"):
+        return
+    mut = MUTATORS.get(module)
+    if mut is None:
+        return
+    events = read_ndjson(trace_path)
+    # work on a prefix of whole traces to keep TLC short
+    traces = split_traces(events)
+    subset = [e for t in traces[:40] for e in t]
+    done = []
+    for tag, desc, m in mut(subset):
+        if tag != "*" and check.prop not in tag.split(","):
+            continue
+        p = os.path.join(check.wd, "selftest.ndjson")
+        with open(p, "w") as fh:
+            for e in m:
+                fh.write(json.dumps(e) + "\n")
+        r, n = validate_trace(module, cfg, check.wd, p)
+        if r.ok or not r.violated or r.violated == "Inv_WellFormed":
+            raise Machinery("binding self-test: %s accepted a corrupted trace (%s): violated=%s error=%s" % (module, desc, r.violated, r.error))
+        done.append({"module": module, "corruption": desc, "rejected_by": r.violated})
+        log("[%s] self-test: %s -> rejected by %s" % (check.prop, desc, r.violated))
+    check.cov.setdefault("binding_selftest", []).extend(done)
